@@ -26,8 +26,8 @@ theorem announced_hdr16 (n : Nat) (h : n ≤ 65535) : announced (hdr n) = n := b
   omega
 
 /-- **C17 (any size).** The regenerated frame reader returns a framed message of
-any size 13..65535 whole, however the stream is chunked. -/
-theorem tcp_frame_read_whole (m rest : Bytes) (cs : Stream) (h13 : 13 ≤ m.length) (hmax : m.length ≤ 65535)
+any size 12..65535 (12 = a bare DNS header, accepted since the repair of F18) whole, however the stream is chunked. -/
+theorem tcp_frame_read_whole (m rest : Bytes) (cs : Stream) (h12 : 12 ≤ m.length) (hmax : m.length ≤ 65535)
     (hcs : cs.flatten = hdr m.length ++ m ++ rest) :
     ∃ cs', Gen.readRawMsgFromTCP cs = .ok (m, cs') ∧ cs'.flatten = rest := by
   rw [Refine.C16.readRawMsgFromTCP_eq]
@@ -36,7 +36,7 @@ theorem tcp_frame_read_whole (m rest : Bytes) (cs : Stream) (h13 : 13 ≤ m.leng
   simp only [List.nil_append] at h1
   rw [h1]
   simp only [announced_hdr16 m.length hmax]
-  have : ¬ m.length ≤ 12 := by omega
+  have : ¬ m.length < 12 := by omega
   simp only [this, if_false]
   obtain ⟨c2, h2, h2f⟩ := readFullAux_spec c1 m.length [] m rest h1f rfl
   simp only [List.nil_append] at h2
@@ -57,14 +57,14 @@ def tcpOver (cs : Stream) : Bytes → Except Nat Bytes := fun _ =>
   | .error _ => .error 1
 
 /-- **C17 (TCP reply of any size).** The UDP reply has TC set and the server's TCP
-reply `m` (13..65535 bytes) arrives framed on the connection in any chunking:
+reply `m` (12..65535 bytes: every DNS message a frame can carry, a bare header included) arrives framed on the connection in any chunking:
 the caller gets exactly `m`, and TCP was used. -/
 theorem truncated_gets_tcp_reply_of_any_size (udp : Bytes → Except Nat Bytes) (q r m rest : Bytes) (cs : Stream)
     (hu : udp q = .ok r) (htc : Model.C17.tcBit r = true)
-    (h13 : 13 ≤ m.length) (hmax : m.length ≤ 65535) (hcs : cs.flatten = hdr m.length ++ m ++ rest) :
+    (h12 : 12 ≤ m.length) (hmax : m.length ≤ 65535) (hcs : cs.flatten = hdr m.length ++ m ++ rest) :
     Gen.udpWithFallbackExchange udp (tcpOver cs) q = (.ok m, true) := by
   rw [Refine.C17.exchange_eq]
-  obtain ⟨cs', h, _⟩ := tcp_frame_read_whole m rest cs h13 hmax hcs
+  obtain ⟨cs', h, _⟩ := tcp_frame_read_whole m rest cs h12 hmax hcs
   simp [Model.C17.exchange, hu, htc, tcpOver, h]
 
 /-- What the theorems above exclude: a reader that refuses a frame whose size
@@ -73,7 +73,7 @@ def readRawHdrCounted (c : Stream) : Except ReadErr (Bytes × Stream) :=
   match readFull c 2 with
   | .error e => .error e
   | .ok (h, c) =>
-    if announced h ≤ 12 then .error .tooSmall
+    if announced h < 12 then .error .tooSmall
     else if announced h + 2 > 65535 then .error .tooSmall
     else readFull c (announced h)
 
@@ -85,8 +85,29 @@ theorem hdr_counted_refuses_legal_reply (m rest : Bytes) (cs : Stream) (hm : m.l
   simp only [List.nil_append] at h1
   rw [h1]
   simp only [announced_hdr16 m.length (by omega)]
-  have h12 : ¬ m.length ≤ 12 := by omega
+  have h12 : ¬ m.length < 12 := by omega
   have hbig : m.length + 2 > 65535 := by omega
   simp [h12, hbig]
 
+/-- What the reader did before the repair of F18: it refused a frame of exactly 12 bytes (a header-only reply,
+e.g. FORMERR / REFUSED with no question), so the caller of a truncated query got an error instead of the TCP reply. -/
+def readRawHeaderRefused (c : Stream) : Except ReadErr (Bytes × Stream) :=
+  match readFull c 2 with
+  | .error e => .error e
+  | .ok (h, c) => if announced h ≤ 12 then .error .tooSmall else readFull c (announced h)
+
+theorem header_only_reply_was_refused (m rest : Bytes) (cs : Stream) (hm : m.length = 12)
+    (hcs : cs.flatten = hdr m.length ++ m ++ rest) :
+    readRawHeaderRefused cs = .error .tooSmall ∧ ∃ cs', Gen.readRawMsgFromTCP cs = .ok (m, cs') := by
+  constructor
+  · unfold readRawHeaderRefused readFull
+    obtain ⟨c1, h1, _⟩ := readFullAux_spec cs 2 [] (hdr m.length) (m ++ rest) (by simpa using hcs) (by simp [hdr])
+    simp only [List.nil_append] at h1
+    rw [h1]
+    simp only [announced_hdr16 m.length (by omega)]
+    simp [hm]
+  · obtain ⟨cs', h, _⟩ := tcp_frame_read_whole m rest cs (by omega) (by omega) hcs
+    exact ⟨cs', h⟩
+
 end Props.C17
+
